@@ -5,6 +5,7 @@ From Coq Require Import ZArith List String Bool Arith Lia.
 From PAFC13 Require Import Model Proofs1.
 Import ListNotations.
 Open Scope list_scope.
+Local Opaque FUEL.
 
 (* ------------------------------------------------------------------ composition-preserving steps *)
 Definition Pres {A} (c : M A) : Prop :=
